@@ -130,10 +130,20 @@ def cases(chunk):
     elif kind == "real":
         for i in range(chunk["n"]):
             n1, n2 = rng.randint(1, 8), rng.randint(1, 8)
-            sc = rng.choice([1.0, 10.0, 1000.0])
+            sc = rng.choice([1.0, 10.0, 1000.0, 1e-4])     # 1e-4: coordinates in kilometres / normalised units
             a = [[rng.uniform(-sc, sc), rng.uniform(-sc, sc), rng.uniform(-sc, sc)] for _ in range(n1)]
             b = [[rng.uniform(-sc, sc), rng.uniform(-sc, sc), rng.uniform(-sc, sc)] for _ in range(n2)]
             r = rng.random()
+            if i % 7 == 3:
+                # a track against a slightly displaced copy of itself: point distances of a few hundredths of a
+                # millimetre, none of them zero
+                b = [[v + rng.choice([-1, 1]) * rng.uniform(1e-5, 6e-5) for v in a[min(n1 - 1, (j * n1) // n2)]]
+                     for j in range(n2)]
+                r = 1.0
+            if i % 7 == 5:
+                # realistic magnitudes: both tracks in projected map coordinates
+                a = [[p[0] + 652000.0, p[1] + 6862000.0, p[2] + 100.0] for p in a]
+                b = [[p[0] + 652000.0, p[1] + 6862000.0, p[2] + 100.0] for p in b]
             if r < 0.25:        # tracks sharing fixes: zero distances, ties between reals
                 for j in range(n2):
                     if rng.random() < 0.5:
